@@ -323,7 +323,7 @@ fn gen_tcp(r: &mut Rng, extras: bool) -> Vec<Vec<Tok>> {
     let chs: Vec<&[u8]> = (0..2 + r.below(3)).map(|_| *r.pick(TCH)).collect();
     let pats: Vec<&[u8]> = (0..2 + r.below(3)).map(|_| *r.pick(TPAT)).collect();
     let mut ops: Vec<Vec<Tok>> = (1..=n).map(conn_op).collect();
-    let mut live: Vec<i64> = (1..=n).collect(); let mut next_id = n + 1; let mut zombies: Vec<i64> = vec![];     // ids are never reused: a closed
+    let mut live: Vec<i64> = (1..=n).collect(); let mut next_id = n + 1;     // ids are never reused: a closed
     let mut serial = 0u32;                                                  // connection may linger in the server
     let names = |r: &mut Rng, pool: &[&[u8]], max: u64| -> Vec<Vec<u8>> { (0..1 + r.below(max)).map(|_| r.pick(pool).to_vec()).collect() };
     let cmd = |c: i64, name: &[u8], args: &[Vec<u8>]| -> Vec<Tok> { let mut a: Vec<&[u8]> = vec![name]; for x in args { a.push(x); } subcmd_op(c, &a) };
@@ -345,7 +345,8 @@ fn gen_tcp(r: &mut Rng, extras: bool) -> Vec<Vec<Tok>> {
                 if r.chance(1, 2) { for d in live.clone() { if d != c && r.chance(2, 3) { ops.push(drain_op(d)); } } }
             }
             85..=87 => ops.push(drain_op(c)),
-            88..=89 => ops.push(cmd(c, b"PING", &[])),          // a subscribed connection still serves commands
+            88 => ops.push(cmd(c, b"PING", &[])),          // a subscribed connection still serves commands
+            89 => { ops.push(cmd(c, b"QUIT", &[])); live.retain(|x| *x != c); }   // closes, subscriptions included
             90 => ops.push(cmd(c, b"SET", &[b"k".to_vec(), b"v".to_vec()])),
             91..=92 => { // malformed
                 match r.below(5) {
@@ -356,17 +357,19 @@ fn gen_tcp(r: &mut Rng, extras: bool) -> Vec<Vec<Tok>> {
                 }
             }
             93..=95 => { // disconnect (the server sees EOF and cleans up), two round trips on a live connection, reconnect
-                // a client that disconnects while subscribed lingers in the server until a later delivery
-                // to it fails (class closing-leak, witness s-w-disconnect): here it unsubscribes first
-                ops.push(cmd(c, b"UNSUBSCRIBE", &[])); ops.push(cmd(c, b"PUNSUBSCRIBE", &[]));
+                // disconnect, mostly while still subscribed (4bdfa3e: the connection goes with its subscriptions)
+                if r.chance(1, 4) { ops.push(cmd(c, b"UNSUBSCRIBE", &[])); ops.push(cmd(c, b"PUNSUBSCRIBE", &[])); }
                 ops.push(close_op(c)); live.retain(|x| *x != c);
+                // barrier: two round trips on a live connection = at least one full loop iteration after the
+                // FIN, so the server has read the EOF and run cleanup_connections before the next PUBLISH
                 let other = live[0];
                 ops.push(cmd(other, b"PING", &[])); ops.push(cmd(other, b"PING", &[]));
                 if r.chance(2, 3) { ops.push(conn_op(next_id)); live.push(next_id); next_id += 1; }
             }
             _ if extras => {
                 match r.below(4) {
-                    0 => { ops.push(cmd(c, b"QUIT", &[])); live.retain(|x| *x != c); zombies.push(c); }
+                    0 => { // after QUIT the id is dead: whatever is sent to it is not answered
+                        ops.push(cmd(c, b"QUIT", &[])); live.retain(|x| *x != c); ops.push(cmd(c, b"PING", &[])); ops.push(drain_op(c)); }
                     1 => { // pipelined: replies owed before a SUBSCRIBE, in one chunk
                         let mut w = vec![];
                         V::cmd(&[b"PING"]).wire(&mut w); V::cmd(&[b"SUBSCRIBE", *r.pick(&chs)]).wire(&mut w); V::cmd(&[b"ECHO", b"after"]).wire(&mut w);
@@ -389,8 +392,6 @@ fn gen_tcp(r: &mut Rng, extras: bool) -> Vec<Vec<Tok>> {
             }
             _ => ops.push(drain_op(c)),
         }
-        // a connection that sent QUIT while subscribed lingers (closing-leak): it still receives, and goes when it unsubscribes
-        if !zombies.is_empty() && r.chance(1, 6) { let z = *r.pick(&zombies); if r.chance(1, 2) { ops.push(drain_op(z)); } else { ops.push(cmd(z, b"UNSUBSCRIBE", &[])); ops.push(cmd(z, b"PUNSUBSCRIBE", &[])); } }
     }
     // dump: everything pending, then one publish per pool channel seen by everybody
     for d in &live { ops.push(drain_op(*d)); }
@@ -411,9 +412,9 @@ fn tcp_witnesses() -> Vec<Case> {
         // 86d9004: PING; SUBSCRIBE ch in one batch answers PONG first
         Case { id: "sx-w-pipeline".into(), outs: vec![], ops: vec![conn_op(1), subraw_op(1, &{ let mut w = vec![]; V::cmd(&[b"PING"]).wire(&mut w); V::cmd(&[b"SUBSCRIBE", b"ch"]).wire(&mut w); w }),
             subraw_op(1, &{ let mut w = vec![]; V::cmd(&[b"PING"]).wire(&mut w); V::cmd(&[b" subscribe", b"c2"]).wire(&mut w); w })] },
-        // disconnect cleanup, and the Closing connection that keeps its subscriptions (closing-leak)
+        // disconnect cleanup (closing-leak repaired by 4bdfa3e): EOF and QUIT of a subscriber
         Case { id: "s-w-disconnect".into(), outs: vec![], ops: vec![conn_op(1), conn_op(2), sc(1, &[b"SUBSCRIBE", b"ch"]), close_op(1), sc(2, &[b"PING"]), sc(2, &[b"PING"]), sc(2, &[b"PUBLISH", b"ch", b"m"])] },
-        Case { id: "sx-w-closing-leak".into(), outs: vec![], ops: vec![conn_op(1), conn_op(2), sc(1, &[b"SUBSCRIBE", b"ch"]), sc(1, &[b"QUIT"]), sc(2, &[b"PUBLISH", b"ch", b"m"]), drain_op(1),
+        Case { id: "s-w-quit-subscribed".into(), outs: vec![], ops: vec![conn_op(1), conn_op(2), sc(1, &[b"SUBSCRIBE", b"ch"]), sc(1, &[b"QUIT"]), sc(2, &[b"PUBLISH", b"ch", b"m"]), drain_op(1),
             sc(1, &[b"UNSUBSCRIBE", b"ch"]), sc(2, &[b"PUBLISH", b"ch", b"m2"]), sc(1, &[b"PING"])] },
         Case { id: "s-w-binary".into(), outs: vec![], ops: vec![conn_op(1), conn_op(2), sc(1, &[b"SUBSCRIBE", b"\x00\xff\r\n$5"]), sc(1, &[b"PSUBSCRIBE", b"\x00*"]),
             sc(2, &[b"PUBLISH", b"\x00\xff\r\n$5", &v(b"\r\n$-1\r\n*3\r\n\x00\xff")]), drain_op(1)] },
@@ -431,12 +432,11 @@ fn judge_tcp(c: &Case, outs: &[Vec<Tok>]) -> Vec<String> {
     let mut subs: BTreeMap<i128, Subs> = BTreeMap::new();
     let mut queue: BTreeMap<i128, Vec<V>> = BTreeMap::new();   // frames owed to each live client, in publish order
     let bulk = |x: &[u8]| V::Bulk(x.to_vec());
-    let mut leak = false;      // a client disconnected while subscribed: the server never cleans it up (closing-leak)
     for (k, (op, out)) in c.ops.iter().zip(outs.iter()).enumerate() {
         let name = tok_bytes(&op[0]).to_vec();
         match &name[..] {
             b"CONN" => { let id = tok_int(&op[1]); subs.insert(id, (vec![], vec![])); queue.insert(id, vec![]); }
-            b"CLOSE" => { let id = tok_int(&op[1]); if let Some(e) = subs.remove(&id) { if !e.0.is_empty() || !e.1.is_empty() { leak = true; } } queue.remove(&id); }
+            b"CLOSE" => { let id = tok_int(&op[1]); subs.remove(&id); queue.remove(&id); }
             b"SUBCMD" | b"DRAIN" => {
                 let id = tok_int(&op[1]);
                 if !subs.contains_key(&id) { continue; }
@@ -445,6 +445,7 @@ fn judge_tcp(c: &Case, outs: &[Vec<Tok>]) -> Vec<String> {
                 while !odd && pos < out.len() { if matches!(out[pos], Tok::B(_)) { odd = true; break; } match V::dec(out, &mut pos) { Some(v) => got.push(v), None => { odd = true; } } }
                 if odd { fails.push(format!("FAIL case={} op={} timeout / garbage / closed while collecting frames", c.id, k)); continue; }
                 let mut expect: Vec<V> = queue.get_mut(&id).map(std::mem::take).unwrap_or_default();
+                let mut quit = false;
                 if &name[..] == b"SUBCMD" {
                     let mut p = 3;
                     let req = match V::dec(op, &mut p) { Some(V::Array(l)) => l, _ => continue };
@@ -485,16 +486,18 @@ fn judge_tcp(c: &Case, outs: &[Vec<Tok>]) -> Vec<String> {
                         }
                         (b"PUBLISH", _) => expect.push(err),
                         (b"PING", _) => expect.push(V::Simple(b"PONG".to_vec())),
+                        (b"QUIT", _) => { expect.push(V::Simple(b"OK".to_vec())); quit = true; }
                         (b"SET", _) => expect.push(V::Simple(b"OK".to_vec())),
                         _ => continue,
                     }
                 }
+                if quit { if tok_int(&out[0]) != 1 { fails.push(format!("FAIL case={} op={} the connection stays open after QUIT", c.id, k)); } subs.remove(&id); queue.remove(&id); }
                 if got != expect {
                     let classy = subs.values().any(|e| e.1.iter().any(|p| p.contains(&b'[')));
                     fails.push(format!("FAIL case={} op={} frames received by client {} differ from acknowledgements / matching messages in publish order (expected {}, got {}){}",
-                        c.id, k, id, expect.len(), got.len(), if leak { " class=closing-leak" } else if classy { " class=pubsub-glob-class" } else { "" }));
+                        c.id, k, id, expect.len(), got.len(), if classy { " class=pubsub-glob-class" } else { "" }));
                     // a known class also shifts what the other clients are owed: stop judging this case
-                    if classy || leak { return fails; }
+                    if classy { return fails; }
                 }
             }
             _ => {}
